@@ -52,6 +52,9 @@ func genC12(seed uint64, tier string) *Plan {
 	p.SK["sign"] = []string{"strict", "strict", "strictnosign", "laxsign", "laxnosign"}[r.intn(5)]
 	p.Knobs["ntopics"] = 2
 	p.Knobs["scoring"] = float64(b2i(r.chance(0.7)))
+	if r.chance(0.25) {
+		p.Knobs["p_open_fail"] = []float64{0.15, 0.4, 0.8}[r.intn(3)] // stream opens that fail or are slow
+	}
 	p.Knobs["gater"] = float64(b2i(r.chance(0.3)))
 	p.Knobs["px"] = float64(b2i(r.chance(0.6)))
 	p.Knobs["seqno_validator"] = float64(b2i(r.chance(0.7)))
